@@ -11,6 +11,10 @@ type Pool = sync.Pool
 type Once = sync.Once
 type Locker = sync.Locker
 
+// Map is passed through: its operations are linearizable and never block, so they need no
+// scheduling point of their own (statement-level yields around them expose check-then-act races).
+type Map = sync.Map
+
 type Mutex struct {
 	real sync.Mutex
 	st   vrt.MutexState
